@@ -412,6 +412,34 @@ class ReaderModel(object):
             return
         if isinstance(st, ast.Raise):
             msg = ''
+            arg = st.exc.args[0] if isinstance(st.exc, ast.Call) and st.exc.args else None
+            looked_up = None
+            # the message looked up in a table of constants by the state: `_ERRORS.get(state, "unknown state")`, `_ERRORS[state]`
+            tab, key, dflt = None, None, None
+            if isinstance(arg, ast.Call) and isinstance(arg.func, ast.Attribute) and arg.func.attr == 'get' and arg.args \
+                    and isinstance(arg.func.value, ast.Name):
+                tab, key = arg.func.value.id, arg.args[0]
+                dflt = arg.args[1] if len(arg.args) > 1 else None
+            elif isinstance(arg, ast.Subscript) and isinstance(arg.value, ast.Name):
+                tab, key = arg.value.id, arg.slice
+            if tab is not None:
+                lit = self.f.module.consts.get(tab)
+                try:
+                    k = self.value(key, env)
+                    table = ast.literal_eval(lit) if lit is not None else None
+                except Exception:
+                    table = None
+                if isinstance(table, dict):
+                    if k in table:
+                        looked_up = str(table[k])
+                    elif dflt is not None and isinstance(dflt, ast.Constant):
+                        looked_up = str(dflt.value)
+                    else:
+                        looked_up = '?'
+                else:
+                    looked_up = '?'
+            if looked_up is not None:
+                raise _Stop('RAISE', looked_up)
             for s in ast.walk(st):
                 if isinstance(s, ast.Constant) and isinstance(s.value, str):
                     msg = s.value
